@@ -58,7 +58,7 @@ void adapter_exec(Ev *ev)
     if (ev_is(ev, "sweep")) {
         /* all 2^24 (state, octet) pairs */
         long long bad = 0, fc = -1, fd = -1;
-        for (uint32_t c = 0; c < 65536; c++)
+        for (uint32_t c = 0; c < 65536; c++, driver_kick())
             for (uint32_t d = 0; d < 256; d++) {
                 uint8_t o = (uint8_t)d;
                 if (ufw_crc16_arc((uint16_t)c, &o, 1) != T[c ^ d]) { if (!bad) { fc = c; fd = d; } bad++; }
@@ -69,7 +69,7 @@ void adapter_exec(Ev *ev)
     if (ev_is(ev, "sweep2")) {
         /* two-octet buffers and single host words from states first, first+stride, ... */
         long long bad = 0, badw = 0;
-        for (uint32_t c = (uint32_t)ev->a[0]; c < 65536; c += (uint32_t)ev->a[1])
+        for (uint32_t c = (uint32_t)ev->a[0]; c < 65536; c += (uint32_t)ev->a[1], driver_kick())
             for (uint32_t d = 0; d < 65536; d++) {
                 uint8_t o[2] = { (uint8_t)(d & 0xff), (uint8_t)(d >> 8) };
                 uint16_t want = T[T[c ^ o[0]] ^ o[1]];
